@@ -6,7 +6,7 @@ from fractions import Fraction
 from .core import Repo, Report, CLASSES, DYNGRAPH, DYNDIGRAPH, AnalysisError
 from .ordertype import OrderType
 from .absint import (Interp, Int, Const, NONE, NodeV, SelfV, TupleV, ListObj, DictObj, IterV, AbstractRaise, Unsupported, Builtin,
-                     run_all_choices)
+                     run_all_choices, Opaque)
 from .query_check import QueryWorld, Shape, SHAPES, Static, to_py, SnapView
 
 
@@ -62,6 +62,17 @@ class StreamWorld(QueryWorld):
         return super().call_method(ip, obj, name, args, kwargs, node)
 
 
+ZERO_WINDOW = (-2, 12)
+
+
+def _zero_note(ch):
+    for k, v in ch.items():
+        if v and isinstance(k, tuple) and str(k[0]).startswith("zero-"):
+            return " | the literal 0 %s" % ("is far below every instant" if k[0] == "zero-far-below" else (
+                "is far above every instant" if k[0] == "zero-far-above" else "equals %s%+d" % (k[1], k[2])))
+    return ""
+
+
 def _hist(vals):
     h = {}
     for v in vals:
@@ -90,36 +101,50 @@ def check_inter_event(repo: Repo, rep: Report):
         shape = Shape("A-B, A-C", ["A", "B", "C"], [("A", "B"), ("A", "C")] + ([("B", "A")] if directed else []), directed)
 
         def run(env, events, timeline):
-            w = StreamWorld(cls, shape, {}, methods, functions, events, timeline)
-            ip = Interp(w, ot, max_depth=6)
-            try:
-                return to_py(ip.call_function(fn, env)), None
-            except AbstractRaise as r:
-                return None, r
+            """every placement of the literal 0 among the instants when the code looks at the truth of an instant or compares it
+            with a literal; a verdict is the first deviating placement (or the plain run)"""
+            def once(ch):
+                w = StreamWorld(cls, shape, ch, methods, functions, events, timeline)
+                w.lazy_zero_window = ZERO_WINDOW
+                ip = Interp(w, ot, max_depth=6)
+                try:
+                    return to_py(ip.call_function(fn, env)), None
+                except AbstractRaise as r:
+                    return None, r
+            res = run_all_choices(once, max_runs=64)
+            want_ = run.want
+            for ch, (got_, r_) in res:
+                if r_ is not None or got_ != want_:
+                    run.zero = _zero_note(ch)
+                    return got_, r_
+            run.zero = ""
+            return res[0][1]
         for label, events in STREAMS:
             # global
             n += 1
+            want = run.want = _gaps([k for (_, _, _, k) in events])
             got, r = run({"self": SelfV(), "u": NONE, "v": NONE}, events, TIMELINES[0][1])
-            want = _gaps([k for (_, _, _, k) in events])
-            _cmp(rep, construct, "global", label, got, r, want)
+            _cmp(rep, construct, "global", label + run.zero, got, r, want)
             # per node
             for node in ("A", "B", "D"):
                 n += 1
                 sel = [k for (s, d, _, k) in events if (side in ("both", "out") and s == node) or (side in ("both", "in") and d == node)]
+                run.want = _gaps(sel)
                 got, r = run({"self": SelfV(), "u": NodeV(node), "v": NONE}, events, TIMELINES[0][1])
-                _cmp(rep, construct, "node(%s)" % side, "%s, node %s" % (label, node), got, r, _gaps(sel))
+                _cmp(rep, construct, "node(%s)" % side, "%s, node %s%s" % (label, node, run.zero), got, r, _gaps(sel))
                 if node == "A" and events:
                     # the id of the queried node may coincide with an instant or an op string of the stream
                     def once(ch, events=events):
                         w = StreamWorld(cls, shape, ch, methods, functions, events, TIMELINES[0][1])
                         w.id_collisions = "A"
+                        w.lazy_zero_window = ZERO_WINDOW
                         ip = Interp(w, ot, max_depth=6)
                         try:
                             return to_py(ip.call_function(fn, {"self": SelfV(), "u": NodeV("A"), "v": NONE})), None
                         except AbstractRaise as r_:
                             return None, r_
                     for ch, (got2, r2) in run_all_choices(once, max_runs=64):
-                        if any(ch.values()):
+                        if any(v_ for k_, v_ in ch.items() if not str(k_[0]).startswith("zero-")):
                             _cmp(rep, construct, "node(%s):id-equals-a-value-of-the-stream" % side, "%s, node A whose id equals %s" % (
                                 label, [k[2] for k, v_ in ch.items() if v_]), got2, r2, _gaps(sel))
         for label, tl in TIMELINES:
@@ -131,8 +156,9 @@ def check_inter_event(repo: Repo, rep: Report):
             u, v = ("A", "B")
             if side == "in":
                 u, v = "B", "A"         # the pair is looked up in the predecessor table of u
+            run.want = want
             got, r = run({"self": SelfV(), "u": NodeV(u), "v": NodeV(v)}, STREAMS[0][1], tl)
-            _cmp(rep, construct, "pair", "%s %s" % (label, tl), got, r, want)
+            _cmp(rep, construct, "pair", "%s %s%s" % (label, tl, run.zero), got, r, want)
         rep.ob("O.inter_event", construct, "global / per-node / per-pair distributions on %d streams and %d timelines" % (len(STREAMS), len(TIMELINES)))
     rep.sample(dict(engine="O", what="inter-event distributions", streams=[s[0] for s in STREAMS], timelines=[t[1] for t in TIMELINES]))
     return n
@@ -190,6 +216,16 @@ class StatWorld(QueryWorld):
         return super().resolve_name(ip, name, node)
 
 
+class SnapshotOf:
+    """self.time_slice(t): the graph of the interactions present at t (C06 decides time_slice itself)"""
+
+    def __init__(self, lo, hi):
+        self.lo, self.hi = lo, hi
+
+    def __repr__(self):
+        return "slice[%r, %r]" % (self.lo, self.hi)
+
+
 class RatioWorld(StatWorld):
     """Snapshot ids t-2, t+1 .. t+5, t+8 (|T| = 7, span 11): every stored pair is present at the two outer ids, its presence
     at the three inner ones is the valuation; the timelines are materialised accordingly (runs, nested runs, gaps), so a
@@ -201,6 +237,28 @@ class RatioWorld(StatWorld):
         inner = [T(o) for o in self.INNER]
         self.materialise_timelines(inner)
         self.ids = [T(self.INNER[0] - 3)] + inner + [T(self.INNER[-1] + 3)]
+
+    def call_method(self, ip, obj, name, args, kwargs, node):
+        if isinstance(obj, SelfV) and name == "time_slice" and not isinstance(obj, SnapshotOf):
+            lo = args[0] if args else kwargs.get("t_from")
+            hi = args[1] if len(args) > 1 else kwargs.get("t_to", NONE)
+            if isinstance(lo, Int) and isinstance(hi, Const) and hi.v is None:
+                return SnapshotOf(lo, lo)
+            if isinstance(lo, Int) and isinstance(hi, Int) and hi.base == lo.base:
+                if hi.k < lo.k:
+                    raise AbstractRaise("ValueError", node, explicit=True, detail="time_slice: t_to < t_from")
+                return SnapshotOf(lo, hi)
+            raise Unsupported(node, "time_slice(%r, %r) inside a statistic" % (lo, hi))
+        return super().call_method(ip, obj, name, args, kwargs, node)
+
+    def call(self, ip, f, args, kwargs, node):
+        if isinstance(f, Opaque) and f.tag in ("module:nx.density", "module:networkx.density") and len(args) == 1 and isinstance(args[0], SnapshotOf):
+            # networkx.density of an undirected simple graph: 2m / (n (n - 1)), 0 for fewer than two nodes
+            window = [t for t in self.ids if t.base == args[0].lo.base and args[0].lo.k <= t.k <= args[0].hi.k]
+            pairs = [k for k in sorted({self.shape.key(*e) for e in self.shape.edges}, key=str) if any(self.present(k[0], k[1], t) for t in window)]
+            n_, m_ = len({x for k in pairs for x in k}), len(pairs)
+            return Const(0 if n_ <= 1 else 2 * m_ / (n_ * (n_ - 1)))
+        return super().call(ip, f, args, kwargs, node)
 
 
 def check_ratio_statistics(repo: Repo, rep: Report, tier="quick"):
@@ -225,6 +283,12 @@ def check_ratio_statistics(repo: Repo, rep: Report, tier="quick"):
                                         sum(len(P.Tn(u) & P.Tn(v)) for u, v in itertools.combinations(shape.nodes, 2)))),
         "pair_density": (("A", "B"), lambda P: _ratio(len(P.Te("A", "B")), len(P.Tn("A") & P.Tn("B")), zero_ok=True)),
         "node_presence": (("B",), lambda P: P.Tn("B")),
+        # the statement gives no formula for node_density; the one used is the one the pinned suite fixes (test_density: 5/9):
+        # sum_t deg_t(u) / sum_{v in V} |T_v & T_u|, v = u included (Latapy's delta(u) leaves that term out)
+        "node_density": (("B",), lambda P: _ratio(sum(len(P.Te(*k)) for k in P.keys() if "B" in k),
+                                                  sum(len(P.Tn(v) & P.Tn("B")) for v in shape.nodes))),
+        # |E_t| / C(|V_t|, 2) at an inner id (the valuation decides) and at an outer one (everything present)
+        "snapshot_density": ((T(3),), lambda P: _ratio(len(P.E(repr(T(3)))), len(P.V(repr(T(3)))) * (len(P.V(repr(T(3)))) - 1) // 2, zero_ok=True)),
     }
     for name, (args, ref) in specs.items():
         if name not in methods:
@@ -250,7 +314,7 @@ def check_ratio_statistics(repo: Repo, rep: Report, tier="quick"):
                 w = RatioWorld(cls, shape, ch, methods, {})
                 ip = Interp(w, ot, max_depth=10)
                 env = {"self": SelfV()}
-                env.update({p: NodeV(a) for p, a in zip(params, args)})
+                env.update({p: (NodeV(a) if isinstance(a, str) else a) for p, a in zip(params, args)})
                 try:
                     return ip.call_function(fn, env), None
                 except AbstractRaise as r:
@@ -300,3 +364,9 @@ class _Pres:
 
     def V(self, t):
         return {n for n in self.shape.nodes if t in self.Tn(n)}
+
+    def keys(self):
+        return sorted({self.shape.key(*e) for e in self.shape.edges}, key=str)
+
+    def E(self, t):
+        return {k for k in {self.shape.key(*e) for e in self.shape.edges} if self.seed.get(("present", k, t))}
